@@ -33,7 +33,7 @@ def setup(ctx):
         "situations {pinned+same cert, unpinned (first use), pinned+changed cert, pinned+unparsable cert, changed "
         "cert on the second hop of a redirect} x operations {get, get with query, upload with token and 0 B..1 MiB "
         "content, delete} x peers that read eagerly / after a delay / only after the client call has ended x one or "
-        "two attempts on the same client object. "
+        "two attempts on the same client object; concurrent calls; the trust store failing ('database is locked') at the 1st-3rd SQL statement of the call. "
         "distinct = (situation, operation, content size class, peer reading mode, outcome)."
     )
     ctx.assumptions = [
@@ -46,6 +46,7 @@ def setup(ctx):
     ctx.require("monitor", "writes_seen", 20)
     ctx.require("monitor", "control_peer_saw_request", 12)
     ctx.require("monitor", "concurrent_batches", 4)
+    ctx.require("monitor", "db_faults_fired", 6)
 
 
 class OrderMonitor:
@@ -268,8 +269,118 @@ def run(ctx):
             # ---- concurrent calls on one client
             if ctx.mine(k + 1):
                 run_concurrent(ctx, peer, idents, state, tmp, mon)
+            if ctx.mine(k + 2):
+                run_db_faults(ctx, peer, idents, state, tmp, mon)
     finally:
         shutil.rmtree(tmp, ignore_errors=True)
+
+
+class DbFault:
+    """Make the n-th SQL statement issued through nauyaca.security.tofu fail with OperationalError
+    ('database is locked'), as a store locked by another process would after its busy timeout."""
+
+    def __init__(self, n):
+        self.n = n
+        self.count = 0
+        self.fired = False
+
+    def __enter__(self):
+        import sqlite3
+
+        self._orig = sqlite3.connect
+        fault = self
+
+        class Cur(sqlite3.Cursor):
+            def execute(self, sql, *a):
+                fault.count += 1
+                if fault.count == fault.n and not fault.fired:
+                    fault.fired = True
+                    raise sqlite3.OperationalError("database is locked")
+                return super().execute(sql, *a)
+
+        class Conn(sqlite3.Connection):
+            def cursor(self, *a, **k):
+                return super().cursor(Cur)
+
+        def connect(*a, **k):
+            k["factory"] = Conn
+            return fault._orig(*a, **k)
+
+        sqlite3.connect = connect
+        return self
+
+    def __exit__(self, *a):
+        import sqlite3
+
+        sqlite3.connect = self._orig
+
+
+def run_db_faults(ctx, peer, idents, state, tmp, mon):
+    """The trust store fails (locked) at the n-th statement of the call: whatever the store layer makes of
+    that, request bytes may only go out after a verification that positively succeeded."""
+    from cryptography import x509
+
+    from nauyaca.client.session import GeminiClient
+    from nauyaca.security.tofu import TOFUDatabase
+
+    good = x509.load_der_x509_certificate(idents["good"].der)
+    for situation in ("pinned-same", "changed", "unpinned"):
+        for op in ("get", "upload"):
+            for n in (1, 2, 3):
+                dbp = os.path.join(tmp, f"dbf-{situation}-{op}-{n}.db")
+                db = TOFUDatabase(Path(dbp))
+                state.update(mode="eager", redirect_to=None)
+                state["go"].set()
+                peer.ident_for_connection = None
+                peer.swap_cert(idents["good"])
+                if situation != "unpinned":
+                    db.trust("127.0.0.1", peer.port, good)
+                if situation == "changed":
+                    peer.swap_cert(idents["other"])
+                n0 = len(peer.log)
+                url = f"gemini://127.0.0.1:{peer.port}/dbfault?q=SECRETQUERY"
+                client = GeminiClient(timeout=6, trust_on_first_use=True, tofu_db_path=Path(dbp))
+                mon.take()
+
+                async def go():
+                    if op == "get":
+                        return await client.get(url)
+                    return await client.upload(url, b"SECRET-CONTENT" * 20, mime_type="text/plain", token="SECRETTOKEN")
+
+                with DbFault(n) as fault:
+                    try:
+                        resp = asyncio.run(go())
+                        res = ("response", resp.status)
+                    except BaseException as e:  # noqa: BLE001
+                        res = ("error", type(e).__name__, str(e)[:60])
+                events = mon.take()
+                peer.wait_idle(4)
+                ctx.count("monitor", "calls")
+                ctx.count("monitor", "db_fault_calls")
+                recs = peer.log[n0:]
+                received = b"".join(r["received"] for r in recs)
+                wit = {"situation": situation, "operation": op, "fault_at_statement": n, "fault_fired": fault.fired, "result": res,
+                       "client_events": [list(map(str, e)) for e in events[:10]], "peer_received_len": len(received), "peer_received_head": received[:100]}
+                cur, credit, bad = None, False, False
+                for e in events:
+                    if e[0] == "verify_return":
+                        credit = bool(e[1][0])
+                    elif e[0] == "write" and e[2] != cur:
+                        cur = e[2]
+                        if not credit:
+                            bad = True
+                        credit = False
+                if bad:
+                    ctx.violation(f"bytes-before-verify:entry={op}:pin={situation}:store-fault", "request bytes were handed to TLS although no verification had positively succeeded (trust store failing)", wit)
+                if situation == "changed" and received:
+                    ctx.violation(f"peer-received-bytes:entry={op}:pin=changed:store-fault", f"impostor received {len(received)} bytes while the trust store was failing", wit)
+                if fault.fired:
+                    ctx.count("monitor", "db_faults_fired")
+                ctx.case(("db-fault", situation, op, n, fault.fired, res[0], bool(received)), True, sample=wit)
+                try:
+                    os.unlink(dbp)
+                except OSError:
+                    pass
 
 
 def run_concurrent(ctx, peer, idents, state, tmp, mon):
